@@ -137,7 +137,7 @@ func c04Chain(c *fw.Case) {
 	r := c.Rng
 	code := uint64(18 + r.Intn(2))
 	keyType := gen.SigningKeyTypes[c.Idx%len(gen.SigningKeyTypes)]
-	st := sut.NewStack(sut.Proto())
+	st := sut.SharedStack(sut.Proto())
 	patches := []interface{}{gen.PAddKeys(gen.RandDocKey(r, "key1"))}
 	cs, ch := gen.NewChainCreate(r, code, keyType, patches)
 	cb := cs.Build(r)
